@@ -822,6 +822,20 @@ func (env *Env) applySpec(sf *SpecFunc, argx []Expr) Val {
 	if len(argx) != len(sf.Params) {
 		limitf("spec %s: wrong number of arguments", sf.Name)
 	}
+	if sf.Macro {
+		// expand in the current state: parameters are bound, heap reads see the caller's heap
+		sub := *env
+		sub.bound = map[string]Val{}
+		for k, b := range env.bound {
+			sub.bound[k] = b
+		}
+		for i, a := range argx {
+			pt := e.P.resolveType(sf.Params[i].Type, sf.Pkg, env.fnForTypes())
+			sub.bound[sf.Params[i].Name] = env.coerceTo(env.eval(a), pt)
+		}
+		sub.pkg = sf.Pkg
+		return sub.eval(sf.Body.E)
+	}
 	name, rt, ptypes := e.declareSpec(sf)
 	var ts []string
 	for i, a := range argx {
@@ -851,7 +865,8 @@ func (e *Engine) declareSpec(sf *SpecFunc) (string, types.Type, []types.Type) {
 		sorts = append(sorts, s)
 		decl = append(decl, fmt.Sprintf("(%s %s)", "p_"+mangle(p.Name), s))
 	}
-	if sf.Body == nil {
+	if sf.Body == nil || e.isOpaque(sf.Name) {
+		// uninterpreted, or hidden in this unit (opt opaque=...): only lemmas speak about it
 		e.S.DeclareFun(name, sorts, e.sortOf(rt))
 		return name, rt, ptypes
 	}
